@@ -24,9 +24,9 @@ ASSUMPTIONS = [
 
 
 def plan(tier, seed):
-    n = 260 if tier == "quick" else 5000
+    n = 700 if tier == "quick" else 12000
     shards = []
-    k = 12 if tier == "quick" else 16
+    k = 14 if tier == "quick" else 16
     for p in range(k):
         shards.append({"name": "valid-%d" % p, "kind": "valid", "n": n})
     from . import w7
